@@ -77,7 +77,24 @@ def device_check(pid, tier, replay, prefixes, jobs, drivers=(), rule="", assumpt
     for drv in drivers:
         batches.extend(drv(vlib.seed(), tier))
     if batches:
-        groups = [batches[i::4] for i in range(4) if batches[i::4]]
+        # split by walks so that the validators (one core each) get similar shares
+        flat = []
+        for b in batches:
+            ws = b["walks"]
+            step = max(1, (len(ws) + 7) // 8)
+            for i in range(0, len(ws), step):
+                nb = dict(b)
+                nb["walks"] = ws[i:i + step]
+                flat.append(nb)
+        flat.sort(key=lambda b: -sum(len(w) for w in b["walks"]))
+        ng = 10
+        groups = [[] for _ in range(ng)]
+        sizes = [0] * ng
+        for b in flat:
+            i = sizes.index(min(sizes))
+            groups[i].append(b)
+            sizes[i] += sum(len(w) + 1 for w in b["walks"])
+        groups = [g for g in groups if g]
         for tf, r in devcheck.replay_and_validate(scr, groups, len(groups)):
             out.add_validation(tf, r)
             os.remove(tf)
